@@ -70,7 +70,7 @@ type ecdheKeyAgreementGM struct {
 
 func (ka *ecdheKeyAgreementGM) generateServerKeyExchange(config *Config, signCert, cipherCert *Certificate,
 	clientHello *clientHelloMsg, hello *serverHelloMsg) (*serverKeyExchangeMsg, error) {
-	panic("")
+	return nil, errors.New("tls: ECDHE-SM2 key agreement is not implemented on the server side")
 	//	preferredCurves := config.curvePreferences()
 	//
 	//NextCandidate:
@@ -169,7 +169,7 @@ func (ka *ecdheKeyAgreementGM) generateServerKeyExchange(config *Config, signCer
 }
 
 func (ka *ecdheKeyAgreementGM) processClientKeyExchange(config *Config, cert *Certificate, ckx *clientKeyExchangeMsg, version uint16) ([]byte, error) {
-	panic("")
+	return nil, errors.New("tls: ECDHE-SM2 key agreement is not implemented on the server side")
 	//	if len(ckx.ciphertext) == 0 || int(ckx.ciphertext[0]) != len(ckx.ciphertext)-1 {
 	//		return nil, errClientKeyExchange
 	//	}
@@ -210,6 +210,11 @@ func (ka *ecdheKeyAgreementGM) processServerKeyExchange(config *Config, clientHe
 		return errors.New("tls: server selected unsupported curve")
 	}
 	ka.curveid = CurveID(skx.key[1])<<8 | CurveID(skx.key[2])
+	if ka.curveid != X25519 {
+		if _, ok := curveForCurveID(ka.curveid); !ok {
+			return errors.New("tls: server selected unsupported curve")
+		}
+	}
 
 	publicLen := int(skx.key[3])
 	if publicLen+4 > len(skx.key) {
